@@ -50,13 +50,16 @@ func TestVerifC14(t *testing.T) {
 	e := vStart(t, "C14")
 	defer e.finish()
 	e.everyShard = true
-	nh := e.pick(50, 400)
+	nh := e.pick(60, 480)
 	histDir := os.Getenv("VERIF_HISTDIR")
 	for idx := 0; idx < nh; idx++ {
 		idx := idx
 		gen := "history"
-		if idx%5 == 4 {
+		if idx%6 == 4 {
 			gen = "readonly-storm"
+		}
+		if idx%6 == 5 {
+			gen = "similar-storm"
 		}
 		e.run(idx, gen, map[string]interface{}{"process": e.shard}, func(cs *vCase) {
 			r := rand.New(rand.NewSource(vCaseSeed(e.seed*977+int64(e.shard), "C14", idx)))
@@ -73,6 +76,96 @@ func TestVerifC14(t *testing.T) {
 			}
 			c := New(0.8, FlattenWhitespace)
 			key := func(k int) string { return fmt.Sprintf("key%d", k) }
+			if gen == "similar-storm" {
+				// many known values that all resemble the text: every value has candidate
+				// ranges in every call, so that (values x callers) comparisons are in
+				// flight at once.  Oracles: the calls return (watchdog), the race detector,
+				// and - when the result of the call made alone has no equal confidences -
+				// the concurrent result equals it.
+				nv := []int{12, 20, 36, 48}[r.Intn(4)]
+				G := []int{2, 4, 6, 8, 12}[r.Intn(5)]
+				voc := sVocab(r, 80, "s")
+				base := strings.Fields(sFiller(r, voc, 60+r.Intn(60)))
+				mk := func(edits int) string {
+					w := append([]string{}, base...)
+					for i := 0; i < edits; i++ {
+						w[r.Intn(len(w))] = voc[r.Intn(len(voc))] + "x"
+					}
+					return strings.Join(w, " ")
+				}
+				ref := New(0.8, FlattenWhitespace)
+				for k := 0; k < nv; k++ {
+					v := mk(k % 9)
+					c.AddValue(key(k), v)
+					ref.AddValue(key(k), v)
+				}
+				texts := make([]string, 4)
+				for i := range texts {
+					texts[i] = sFiller(r, filler, 3+r.Intn(10)) + " " + mk(i) + " " + sFiller(r, filler, 3+r.Intn(10))
+				}
+				want := make([]string, len(texts))
+				judged := make([]bool, len(texts))
+				for i, tx := range texts {
+					ms := ref.MultipleMatch(tx)
+					want[i] = sFmtMatches(ms)
+					judged[i] = want[i] == sFmtMatches(ref.MultipleMatch(tx))
+					seen := map[float64]bool{}
+					for _, m := range ms {
+						if seen[m.Confidence] {
+							judged[i] = false // equal confidences: the order is not defined
+						}
+						seen[m.Confidence] = true
+					}
+				}
+				var wg sync.WaitGroup
+				start := make(chan struct{})
+				errs := make(chan string, G*8)
+				var nj, nslow int64
+				var cmu sync.Mutex
+				for g := 0; g < G; g++ {
+					wg.Add(1)
+					go func(g int) {
+						defer wg.Done()
+						<-start
+						for i := 0; i < 3; i++ {
+							k := (g + i) % len(texts)
+							t0 := time.Now()
+							got := sFmtMatches(c.MultipleMatch(texts[k]))
+							dt := time.Since(t0)
+							if !judged[k] {
+								continue
+							}
+							cmu.Lock()
+							nj++
+							cmu.Unlock()
+							if got != want[k] {
+								if dt > 400*time.Millisecond {
+									// the diff library works against a wall-clock deadline
+									cmu.Lock()
+									nslow++
+									cmu.Unlock()
+									continue
+								}
+								errs <- fmt.Sprintf("MultipleMatch(text %d) = %s, alone: %s", k, got, want[k])
+							}
+						}
+					}(g)
+				}
+				close(start)
+				wg.Wait()
+				close(errs)
+				for s := range errs {
+					cs.violation("concurrent-result-differs", "%d goroutines on a classifier with %d similar values: %s", G, nv, s)
+					return
+				}
+				e.count("similar_storm_calls", int64(G*3))
+				e.count("similar_storm_calls_judged", nj)
+				e.count("calls_not_judged_slow", nslow)
+				cs.observe("values", nv)
+				cs.observe("callers", G)
+				cs.nontrivial("sim", idx, e.shard)
+				return
+			}
 			if gen == "readonly-storm" {
 				for k := range vals {
 					c.AddValue(key(k), vals[k])
